@@ -7,8 +7,12 @@ pub static CHUNK: crate::scen_chunk::Chunk = crate::scen_chunk::Chunk;
 pub static SOUP: crate::scen_chunk::Soup = crate::scen_chunk::Soup;
 pub static FAULT: crate::scen_fault::FaultScen = crate::scen_fault::FaultScen;
 
+pub static SKIP: crate::scen_hist::Skip = crate::scen_hist::Skip;
+pub static NS: crate::scen_hist::Ns = crate::scen_hist::Ns;
+pub static NEST: crate::scen_hist::Nest = crate::scen_hist::Nest;
+
 pub fn all_scenarios() -> Vec<&'static dyn Scenario> {
-    vec![&CHUNK, &SOUP, &FAULT]
+    vec![&CHUNK, &SOUP, &FAULT, &SKIP, &NS, &NEST]
 }
 
 const STUBS: &[&str] = &[
@@ -44,6 +48,9 @@ pub fn spec_for(prop: &str) -> Option<CheckSpec> {
                 Part { scen: &SOUP, quick: 500_000, thorough: 20_000_000 },
                 Part { scen: &CHUNK, quick: 100_000, thorough: 2_000_000 },
                 Part { scen: &FAULT, quick: 10_000, thorough: 200_000 },
+                Part { scen: &SKIP, quick: 100_000, thorough: 2_000_000 },
+                Part { scen: &NS, quick: 100_000, thorough: 2_000_000 },
+                Part { scen: &NEST, quick: 100_000, thorough: 2_000_000 },
             ],
             rule: "one case = (byte string, switches, reader flavour, source kind, chunking, faults, end-of-stream point); distinct = distinct Plan hash x end-of-stream point; non-trivial = the run produced at least one event or error before Eof",
             assumptions: vec![
@@ -64,6 +71,43 @@ pub fn spec_for(prop: &str) -> Option<CheckSpec> {
                 "the fault-free run over the same source and chunking is the reference",
                 "fault points are exhaustive per sampled (document, chunking); documents and chunkings are sampled",
                 "after the hard error nothing is asserted about later calls except no panic / termination",
+            ],
+            real: real_reader,
+            stub: STUBS.to_vec(),
+        }),
+        "C12" => Some(CheckSpec {
+            prop: "C12",
+            level: "exploration",
+            parts: vec![Part { scen: &SKIP, quick: 1_500_000, thorough: 40_000_000 }],
+            rule: "one case = (well-nested token document with repeated names, look-alike end tags in comments/CDATA/PIs/attribute values and blanks around tags; trim/expand/check switches; source kind and chunking; script of Read / Skip / ReadText calls; optional truncation point, injected I/O error or interrupt); distinct = Plan hash; non-trivial = at least one skip was made AND (a skipped element contains its own name as '</name' inside — nested same-name element or look-alike — or a failure path was taken)",
+            assumptions: vec![
+                "element spans and matching end tags come from the generator's token list, not from the library",
+                "events after a skip are compared with a plain event-by-event read of the same bytes by the slice reader (skipping == reading and discarding)",
+                "trim_markup_names_in_closing_tags stays on (with it off the documentation itself says names with blanks do not match)",
+            ],
+            real: real_reader,
+            stub: STUBS.to_vec(),
+        }),
+        "C05" => Some(CheckSpec {
+            prop: "C05",
+            level: "exploration",
+            parts: vec![Part { scen: &NS, quick: 1_000_000, thorough: 30_000_000 }],
+            rule: "one case = (well-formed token document over 3 prefixes / 3 URIs with declarations, re-declarations, xmlns=\"\", xmlns:p=\"\" and shadowing; expand-empty on/off; source kind and chunking; script of Read / ReadResolved / Skip / ReadText calls); after EVERY call 14 probe names (7 prefixes x element/attribute) and the prefixes() listing are compared with the scope model; distinct = Plan hash; non-trivial = at least one declaration was in play AND (at least one skip or at least one shadowing)",
+            assumptions: vec![
+                "the scope model is computed from the generator's token list (declarations per element), never from the library's output",
+                "documents are well-formed and free of illegal xml/xmlns rebinding",
+            ],
+            real: real_reader,
+            stub: STUBS.to_vec(),
+        }),
+        "C04" => Some(CheckSpec {
+            prop: "C04",
+            level: "exploration",
+            parts: vec![Part { scen: &NEST, quick: 1_500_000, thorough: 40_000_000 }],
+            rule: "one case = (sequence of well-formed tokens over names a/ab/b/a:b incl. end tags with trailing blanks or attributes and <x/>; initial values of the 4 related switches; script of Read calls with 0-8 switch flips at arbitrary points; source kind and chunking); every outcome is judged by a nondeterministic open-element-stack model; distinct = Plan hash; non-trivial = an end tag was judged while depth >= 2 or after at least one flip",
+            assumptions: vec![
+                "where the property is silent (does a non-matching end tag close the element?) the model keeps both successor states; an outcome is a violation only if no candidate stack allows it",
+                "text trimming and comment checking are off so that every token yields exactly one outcome",
             ],
             real: real_reader,
             stub: STUBS.to_vec(),
